@@ -1135,6 +1135,20 @@ impl<T: TraceStorage> ChainProcess<T> {
                         .init_position(&mut rng, &mut initval)
                         .context("Failed to generate a new initial position")?;
                     if let Err(err) = sampler.set_position(&initval) {
+                        // Only recoverable failures (bad initial point) are worth another try.
+                        let unrecoverable = err.downcast_ref::<crate::NutsError>().is_some_and(|e| {
+                            let (crate::NutsError::LogpFailure(inner)
+                            | crate::NutsError::BadInitGrad(inner)) = e
+                            else {
+                                return false;
+                            };
+                            inner
+                                .downcast_ref::<<M::Math<'model> as Math>::LogpErr>()
+                                .is_some_and(|e| !crate::LogpError::is_recoverable(e))
+                        });
+                        if unrecoverable {
+                            return Err(err.context("Unrecoverable error during initialization"));
+                        }
                         error = Some(err);
                         continue;
                     }
